@@ -63,9 +63,33 @@ def PRE_INSTALL():
 
 
 def POST_INSTALL():
-    from symx import shim
+    from symx import shim, explore
     shim.NPFacade.unique = _facade_unique
     shim.NPFacade.mean = _facade_mean
+    # per-path memo of decisions: the same condition (same simplified z3 term) asked again on one path gets the same answer without
+    # another solver call / stack entry (the triangle code evaluates the same comparisons several times: mask, containing_indices, ...)
+    if not getattr(explore.Explorer, "_c20_memo", False):
+        orig_decide, orig_begin = explore.Explorer.decide, explore.Explorer._begin_path
+
+        def _begin_path(self):
+            self._decide_memo = {}
+            return orig_begin(self)
+
+        def decide(self, c, payload_fn=None):
+            if isinstance(c, bool):
+                return c
+            cs = z3.simplify(c)
+            k = cs.get_id()
+            hit = self._decide_memo.get(k)
+            if hit is not None:
+                return hit[1]
+            r = orig_decide(self, cs, payload_fn)
+            self._decide_memo[k] = (cs, r)
+            return r
+
+        explore.Explorer.decide = decide
+        explore.Explorer._begin_path = _begin_path
+        explore.Explorer._c20_memo = True
 
 
 # ---------------------------------------------------------------------------------------------------------------
@@ -685,7 +709,7 @@ def n_params(kind):
     return {"point": 2, "circle": 3, "square": 4, "triangle": 6}.get(kind) or 2 * int(kind[len("polygon"):])
 
 
-def _containment(A, E, tag, T, P, shape, ref):
+def _containment(A, E, tag, T, P, shape, ref, target):
     n = len(P)
     mask = _safe(lambda: np.asarray(shape.mask(np.asarray(hx.unwrap(T.triangles)))))
     idx = _safe(lambda: [int(i) for i in np.asarray(T.containing_indices(shape)).reshape(-1)])
@@ -697,56 +721,69 @@ def _containment(A, E, tag, T, P, shape, ref):
     E[tag + "mask_shape"] = [n]
     A[tag + "containing_indices_valid"] = bool(all(0 <= i < n for i in idx) and len(set(idx)) == len(idx))
     E[tag + "containing_indices_valid"] = True
-    for i in range(n):
-        inside = strictly_inside(ref, P[i])
-        A[tag + "inside_implies_mask[%d]" % i] = _implies(inside, bool(mask[i]) if np.shape(mask) == (n,) else False)
-        E[tag + "inside_implies_mask[%d]" % i] = True
-        A[tag + "inside_implies_containing_indices[%d]" % i] = _implies(inside, i in idx)
-        E[tag + "inside_implies_containing_indices[%d]" % i] = True
+    A[tag + "containing_indices_is_where_mask"] = idx
+    E[tag + "containing_indices_is_where_mask"] = [i for i in range(n) if np.shape(mask) == (n,) and mask[i]]
+    inside = strictly_inside(ref, P[target])
+    A[tag + "reference_point_inside_implies_mask"] = _implies(inside, bool(mask[target]) if np.shape(mask) == (n,) else False)
+    E[tag + "reference_point_inside_implies_mask"] = True
+    A[tag + "reference_point_inside_implies_containing_indices"] = _implies(inside, target in idx)
+    E[tag + "reference_point_inside_implies_containing_indices"] = True
 
 
-def body_shape_coord(inp, coords, flipped, side, kind):
+def _shape_setup(inp, coords, flipped, side, kind):
     from autoarray.structures.triangles.coordinate_array import CoordinateArrayTriangles
-    coords = np.array(coords, dtype=int).reshape(-1, 2)
-    xo, yo = inp["offset"]
-    q = list(inp["shape"])
-    A, E = {}, {}
-    T = CoordinateArrayTriangles(coordinates=coords, side_length=side, x_offset=xo, y_offset=yo, flipped=bool(flipped))
-    P = _tris(T.triangles)
-    shape, ref = _make_shape(kind, q)
-    _containment(A, E, "coord.%s." % kind, T, P, shape, ref)
-    AT = T.with_vertices(T.vertices)
-    _containment(A, E, "array_of_coord.%s." % kind, AT, P, shape, ref)
-    return A, E
-
-
-def case_shape_coord(ctx, coords, flipped, side, kind):
-    _POS.clear()
-    inputs = {"offset": [V.real("x_offset"), V.real("y_offset")], "shape": [V.real("q%d" % i) for i in range(n_params(kind))]}
-    _run(ctx, body_shape_coord, inputs, {"coords": coords, "flipped": flipped, "side": side, "kind": kind}, validate_every=16)
-
-
-def body_shape_array(inp, kind):
     from autoarray.structures.triangles.array import ArrayTriangles
-    verts = np.asarray(inp["vertices"]).reshape(3, 2)
     q = list(inp["shape"])
-    A, E = {}, {}
-    T = ArrayTriangles(indices=np.array([[0, 1, 2]]), vertices=verts)
-    P = [[(verts[i, 0], verts[i, 1]) for i in range(3)]]
+    if coords is not None:
+        c = np.array(coords, dtype=int).reshape(-1, 2)
+        xo, yo = inp["offset"]
+        T = CoordinateArrayTriangles(coordinates=c, side_length=side, x_offset=xo, y_offset=yo, flipped=bool(flipped))
+        P = _tris(T.triangles)
+    else:
+        verts = np.asarray(inp["vertices"]).reshape(-1, 2)
+        idx = np.arange(verts.shape[0]).reshape(-1, 3)
+        T = ArrayTriangles(indices=idx, vertices=verts)
+        P = [[(verts[i, 0], verts[i, 1]) for i in row] for row in idx]
     shape, ref = _make_shape(kind, q)
-    _containment(A, E, "array.%s." % kind, T, P, shape, ref)
+    return T, P, shape, ref
+
+
+def body_shape(inp, coords, flipped, side, kind):
+    """the triangle `target` is reported by shape.mask / containing_indices whenever the shape's reference point lies strictly inside it"""
+    from autoarray.structures.triangles.coordinate_array import CoordinateArrayTriangles
+    target = int(inp["target"])
+    A, E = {}, {}
+    T, P, shape, ref = _shape_setup(inp, coords, flipped, side, kind)
+    rep = "coord" if coords is not None else "array"
+    _containment(A, E, "%s.%s." % (rep, kind), T, P, shape, ref, target)
+    if isinstance(T, CoordinateArrayTriangles):
+        AT = T.with_vertices(T.vertices)
+        _containment(A, E, "array_of_coord.%s." % kind, AT, P, shape, ref, target)
     return A, E
 
 
-def case_shape_array(ctx, kind, fixed):
-    """one triangle: vertex 0 and the y of vertex 1 symbolic, remaining coordinates concrete (`fixed`), shape symbolic"""
+def case_shape(ctx, coords, flipped, side, kind, nvert=0, fixed=None):
+    """coords given: integer-coordinate set with concrete side length, symbolic offsets;
+    coords None: vertex array of nvert/3 triangles with symbolic vertex coordinates. Shape parameters symbolic.
+    The path is restricted to 'reference point strictly inside triangle `target`' (one exploration per target)."""
     _POS.clear()
-    verts = np.empty((3, 2), dtype=object)
-    verts[0, 0], verts[0, 1] = V.real("v_0_0"), V.real("v_0_1")
-    verts[1, 0], verts[1, 1] = np.float64(fixed[0]), V.real("v_1_1")
-    verts[2, 0], verts[2, 1] = np.float64(fixed[1]), np.float64(fixed[2])
-    inputs = {"vertices": verts, "shape": [V.real("q%d" % i) for i in range(n_params(kind))]}
-    _run(ctx, body_shape_array, inputs, {"kind": kind}, validate_every=16)
+    n = len(coords) if coords is not None else nvert // 3
+    t = V.integer("target")
+    ctx.assume(z3.And(t.t >= 0, t.t < n))
+    target = ctx.concretize_int(t.t)
+    inputs = {"target": target, "shape": [V.real("q%d" % i) for i in range(n_params(kind))]}
+    if coords is not None:
+        inputs["offset"] = [V.real("x_offset"), V.real("y_offset")]
+    else:
+        vs = V.real_array("v", (nvert, 2))
+        for j, val in enumerate(fixed or []):
+            if val is not None:
+                vs[j // 2, j % 2] = np.float64(val)
+        inputs["vertices"] = vs
+    kw = {"coords": coords, "flipped": flipped, "side": side, "kind": kind}
+    T, P, shape, ref = _shape_setup(inputs, **kw)
+    ctx.assume(strictly_inside(ref, P[target]))
+    _run(ctx, body_shape, inputs, kw, validate_every=8)
 
 
 # ---------------------------------------------------------------------------------------------------------------
@@ -770,7 +807,7 @@ def _run(ctx, body, inputs, kwargs, validate_every=1):
 
 
 BODIES = {"case_coord": body_coord, "case_limits": body_limits, "case_array": body_array, "case_mesh": body_array,
-          "case_kernels": body_kernels, "case_shape_coord": body_shape_coord, "case_shape_array": body_shape_array}
+          "case_kernels": body_kernels, "case_shape": body_shape}
 
 
 def replay(cand):
@@ -787,8 +824,8 @@ def replay(cand):
         kw = {"indices": None, "mesh": kw["mesh"], "subsets": "few"}
     elif fn == "case_kernels":
         kw = {"indices": kw["indices"]}
-    elif fn == "case_shape_array":
-        kw = {"kind": kw["kind"]}
+    elif fn == "case_shape":
+        kw = {k: kw[k] for k in ("coords", "flipped", "side", "kind")}
     c2 = dict(cand)
     c2["case_kwargs"] = kw
     c2["case"] = case
@@ -858,14 +895,25 @@ def cases(tier):
         out.append(("case_mesh", {"mesh": [0.0, 1.0, 0.0, 2.0, 0.5]}))
         out.append(("case_kernels", {"indices": [[0, 1, 2], [1, 2, 3], [2, 3, 4]], "nv": 5}))
     # containment
-    kinds = ["point", "circle", "square", "triangle", "polygon3", "polygon4"]
-    shape_sets = [([[0, 0]], False, 1.0), ([[1, 0]], False, 1.0), ([[0, 0]], True, 0.5), ([[0, 0], [1, 0]], False, 2.0)]
+    S1, S2, S3 = ([[0, 0]], False, 1.0), ([[1, 0]], False, 1.0), ([[0, 0]], True, 0.5)
+    S4, S5, S6 = ([[0, 0], [1, 0]], False, 2.0), ([[0, 1], [1, 1], [0, 0]], True, 1.0), ([[-1, 2], [2, -1]], False, 0.25)
+    plan = [("point", [S1, S2, S3, S4, S5]), ("circle", [S1, S2, S3, S4, S5]), ("square", [S1, S2, S3, S4]),
+            ("triangle@tri_small", [S1, S2, S4]), ("triangle@tri_large", [S1]), ("polygon@quad_small", [S1, S2]),
+            ("polygon@quad_nonconvex", [S2])]
     if tier != "quick":
-        shape_sets += [([[0, 1], [1, 1], [0, 0]], True, 1.0), ([[-1, 2], [2, -1]], False, 0.25)]
-        kinds.append("polygon5")
-    for kind in kinds:
-        for coords, flipped, side in shape_sets:
-            out.append(("case_shape_coord", {"coords": coords, "flipped": flipped, "side": side, "kind": kind}))
+        plan = [("point", [S1, S2, S3, S4, S5, S6]), ("circle", [S1, S2, S3, S4, S5, S6]), ("square", [S1, S2, S3, S4, S5, S6]),
+                ("triangle@tri_small", [S1, S2, S3, S4, S6]), ("triangle@tri_large", [S1, S2, S4]), ("triangle@sliver", [S1, S2]),
+                ("polygon@quad_small", [S1, S2, S3]), ("polygon@quad_nonconvex", [S1, S2]), ("polygon@pent", [S1, S2])]
+    for kind, ss in plan:
+        for coords, flipped, side in ss:
+            out.append(("case_shape", {"coords": coords, "flipped": flipped, "side": side, "kind": kind}))
+    if tier != "quick":
+        out.append(("case_shape", {"coords": S1[0], "flipped": False, "side": 1.0, "kind": "triangle"}, {"split": 4}))
+    # vertex array, one vertex symbolic (Point.mask treats the three vertices differently), shape symbolic
+    fixed = [[None, None, 1.0, 0.0, -0.5, 2.0], [-1.0, -0.25, None, None, 0.5, 2.0], [1.0, 1.0, -2.0, 0.5, None, None]]
+    for kind in ("point", "circle", "square"):
+        for f in (fixed if (tier != "quick" or kind != "square") else fixed[:1]):
+            out.append(("case_shape", {"coords": None, "flipped": False, "side": None, "kind": kind, "nvert": 3, "fixed": f}, {"logic": "QF_NRA"}))
     return out
 
 
